@@ -15,6 +15,7 @@
 """Core memento implementation."""
 import functools
 import hashlib
+from threading import RLock
 import inspect
 from collections import namedtuple
 from typing import Callable, Dict, Any, Tuple, List, Union, Optional, Set, cast
@@ -42,6 +43,10 @@ from .metadata import ResultType
 _MementoFunctionVersionCacheEntry = namedtuple(
     "_MementoFunctionVersionCacheEntry", ["as_of_generation", "version"]
 )
+
+
+_fn_version_lock = RLock()
+"""Serialises version computations (they update state shared by all threads)"""
 
 
 class MementoFunction(MementoFunctionBase):
@@ -421,7 +426,12 @@ class MementoFunction(MementoFunctionBase):
 
     def _update_dependencies(self):
         """Assemble dependencies and update the version and fn_reference"""
+        # One thread at a time: the version, the function reference made from it and the
+        # process-wide version cache change together
+        with _fn_version_lock:
+            self._update_dependencies_locked()
 
+    def _update_dependencies_locked(self):
         # If version is explicitly specified, function reference is static.
         if self.explicit_version is not None:
             if self._fn_reference is None:
